@@ -29,7 +29,8 @@ ASSUMPTIONS = ['mockturtle and python-sat are absent: cut families come from vt/
                'self-checking z3 stand-in', 'vt.refsem; vt.wf']
 SUPPORTED = ['NOT', 'AND', 'OR', 'XOR', 'NAND', 'NOR', 'NXOR', 'GT', 'LT', 'GEQ', 'LEQ']
 REQUIRED = {'mon:minimize_subcircuits.checked': 60, 'synth:returned': 10, 'shrunk': 10, 'policy:faithful': 10, 'policy:shuffled': 10, 'policy:pruned': 10,
-            'policy:inputs_omitted': 5, 'validation_enabled': 10, 'no_equivalent_gates': 20, 'shim_selftest_ok': 1, 'wide_inputs_cases': 2, 'big_cut_size_cases': 8}
+            'policy:inputs_omitted': 5, 'validation_enabled': 10, 'no_equivalent_gates': 20, 'shim_selftest_ok': 1, 'wide_inputs_cases': 2, 'big_cut_size_cases': 8,
+            'hazard_shape_cases': 40, 'branch:cyclic': 1}
 
 CUR = {'ctx': None, 'case': None, 'trace': None}
 
@@ -46,6 +47,11 @@ def shards(tier, seed):
     for k in range(4):
         out.append({'kind': 'bigcut', 'count': 6 if tier == 'quick' else 400, 'budget_s': budget, 'stream': 200 + k,
                     'hashseed': str(k)})
+    # the shapes where cut rewriting is known to be delicate (non-convex regions, inverter-terminated cones, stacked
+    # redundancy) get shards of their own on top of their share of the random stream
+    for k in range(4):
+        out.append({'kind': 'hazard', 'count': 60 if tier == 'quick' else 2500, 'budget_s': budget, 'stream': 300 + k,
+                    'hashseed': str(5 + 3 * k)})
     for k, ns in enumerate(wide):
         out.append({'kind': 'wide', 'n_in': ns, 'count': len(ns), 'budget_s': budget, 'stream': 100 + k, 'hashseed': str(k)})
     return out
@@ -304,12 +310,19 @@ def shim_selftest(ctx):
 
 # ------------------------------------------------------------------ workload
 
-def gen_net(rng, n_in=None):
+HAZARD_SHAPES = ['loopback', 'loopback', 'loopback', 'inverters', 'reconv', 'towers']
+
+
+def gen_net(rng, n_in=None, shapes=None):
     r = rng.random()
-    if r < 0.12 and n_in is None:
+    if r < 0.12 and n_in is None and shapes is None:
         return 'adder', None
     n_in = n_in or rng.randint(2, 6)
-    shape = rng.choice(['random', 'diamond', 'chain', 'wide', 'dups', 'unary', 'reconv', 'reconv', 'towers'])
+    shape = rng.choice(shapes or ['random', 'diamond', 'chain', 'wide', 'dups', 'unary', 'reconv', 'reconv', 'towers', 'loopback', 'loopback', 'inverters'])
+    if shape == 'loopback':
+        return shape, loopback_net(rng, n_in)
+    if shape == 'inverters':
+        return shape, inverters_net(rng, n_in)
     net = netgen.rand_net(rng, n_in=n_in, n_g=rng.randint(2, 14), shape='random' if shape == 'reconv' else shape, types=SUPPORTED,
                           max_arity=2, n_out=rng.randint(1, 3), const_operands=False, allow_input_outputs=rng.random() < 0.2,
                           allow_repeat_outputs=rng.random() < 0.2, p_repeat_operand=0.03)
@@ -318,6 +331,78 @@ def gen_net(rng, n_in=None):
     if shape == 'towers':
         net = add_redundancy_towers(net, rng)
     return shape, net
+
+
+def loopback_net(rng, n_in):
+    """A region that is not convex: a gate o over two signals, a path of one to three gates that leaves the region from o
+    (each step mixing in a fresh signal) and comes back as w, and a handful of gates over {o's operands, o, w}.  The cone
+    of the last gates then has a cut in which the leaf w depends on the cone's own gate o (o has a user outside) - a
+    replacement that computes o from w would close a loop, the textbook hazard of cut rewriting."""
+    n_in = max(4, n_in or rng.randint(4, 6))
+    ins = ['x%d' % i for i in range(n_in)]
+    g = {l: ('INPUT', ()) for l in ins}
+    bin_t = [t for t in SUPPORTED if t != 'NOT']
+    p, q = rng.sample(ins, 2)
+    side = [l for l in ins if l not in (p, q)]
+    g['o'] = (rng.choice(bin_t), (p, q))
+    prev = 'o'
+    for j in range(rng.randint(1, 3)):
+        l = 'v%d' % j
+        ops = [prev, rng.choice(side)]
+        rng.shuffle(ops)
+        g[l] = (rng.choice(bin_t), tuple(ops))
+        prev = l
+    w = prev
+    pool = [p, q, 'o', w]
+    made = []
+    for j in range(rng.randint(2, 5)):
+        l = 'u%d' % j
+        a = rng.choice(made) if made and rng.random() < 0.5 else rng.choice(pool)
+        b = rng.choice(pool + made[-1:])
+        if rng.random() < 0.15:
+            g[l] = ('NOT', (a,))
+        else:
+            g[l] = (rng.choice(bin_t), (a, b))
+        made.append(l)
+    outs = [made[-1]] + [m for m in made[:-1] if rng.random() < 0.4]
+    if rng.random() < 0.3:
+        outs.append(w)
+    return refsem.Net(ins, outs, g)
+
+
+def inverters_net(rng, n_in):
+    """Inverter-terminated cones: a few two-input gates over two or three signals, several of them followed by a NOT
+    that is what the rest of the circuit (or the interface) uses.  NOT gates are free in the size measure, so cones whose
+    outputs are inverters are where size accounting and output re-creation meet."""
+    n_in = max(2, n_in or rng.randint(2, 5))
+    ins = ['x%d' % i for i in range(n_in)]
+    g = {l: ('INPUT', ()) for l in ins}
+    bin_t = [t for t in SUPPORTED if t != 'NOT']
+    base = rng.sample(ins, min(len(ins), rng.randint(2, 3)))
+    core = []
+    for j in range(rng.randint(2, 4)):
+        l = 'k%d' % j
+        a, b = rng.sample(base, 2) if rng.random() < 0.8 or not core else (rng.choice(core), rng.choice(base))
+        g[l] = (rng.choice(bin_t), (a, b))
+        core.append(l)
+    inv = []
+    for j, l in enumerate(core):
+        if rng.random() < 0.75:
+            g['n%d' % j] = ('NOT', (l,))
+            inv.append('n%d' % j)
+    outs = list(inv) or [core[-1]]
+    rest = [l for l in ins if l not in base]
+    for j in range(rng.randint(0, 2)):
+        if not inv:
+            break
+        l = 'd%d' % j
+        g[l] = (rng.choice(bin_t), (rng.choice(inv), rng.choice(rest or inv + core)))
+        outs.append(l)
+        hidden = [o for o in outs if o in inv]
+        if hidden and len(outs) > 1 and rng.random() < 0.25:
+            outs.remove(rng.choice(hidden))      # an inverter that only the rest of the circuit reads
+    rng.shuffle(outs)
+    return refsem.Net(ins, outs, g)
 
 
 def add_redundancy_towers(net, rng):
@@ -387,11 +472,11 @@ def add_reconvergence(net, rng):
     return refsem.Net(list(net.inputs), outs, g)
 
 
-def gen_case(rng, hashseed, bigcut=False):
+def gen_case(rng, hashseed, bigcut=False, shapes=None):
     # cut_size is a free parameter of the pass (default 5); sizes above it get their own, smaller shards (cones with
     # 6..8 leaves make the SAT calls slow, so those cases run with a solver time limit)
     cut_size = rng.choice([6, 7, 7, 8]) if bigcut else rng.choice([2, 3, 4, 5])
-    shape, net = gen_net(rng, n_in=rng.randint(cut_size, 9) if bigcut else None)
+    shape, net = gen_net(rng, n_in=rng.randint(cut_size, 9) if bigcut else None, shapes=shapes)
     case = {'kind': 'random', 'shape': shape, 'rseed': rng.getrandbits(32), 'hashseed': hashseed,
             'basis': rng.choice(['AIG', 'XAIG', 'FULL', 'aig', 'xaig', 'enum:AIG', 'enum:XAIG', 'enum:FULL']),
             'params': {'max_subcircuit_size': rng.choice([2, 3, 4, 5, 9]), 'cut_size': cut_size,
@@ -510,6 +595,9 @@ def run_shard(spec, ctx):
         if spec.get('kind') == 'wide':
             ctx.count('wide_inputs_cases')
             check_case(gen_wide_case(rng, spec['hashseed'], spec['n_in'][i]), ctx)
+        elif spec.get('kind') == 'hazard':
+            ctx.count('hazard_shape_cases')
+            check_case(gen_case(rng, spec['hashseed'], shapes=HAZARD_SHAPES), ctx)
         elif spec.get('kind') == 'bigcut':
             ctx.count('big_cut_size_cases')
             check_case(gen_case(rng, spec['hashseed'], bigcut=True), ctx)
